@@ -3,6 +3,7 @@ package c32
 
 import (
 	"context"
+	"errors"
 	"fmt"
 	"math/rand"
 	"sort"
@@ -236,8 +237,11 @@ func oneCase(c *vk.Ctx, i int, r *rand.Rand, p *sem.Prepared, srv *drive.Srv) {
 					}
 					searches++
 					lo := srv.StreamedListObjects(drive.Req{Store: p.Store, Object: t, Relation: rel, User: subj, Ctx: rctx})
+					if sem.Hung(c, "native StreamedListObjects", lo) {
+						continue
+					}
 					var got []string
-					err := drive.Guard(func() error {
+					err := guardWatched(c, "ResourceSearch", func() error {
 						resp, err := srv.S.ResourceSearch(ctx, &authzenv1.ResourceSearchRequest{StoreId: p.Store, Subject: subjectOf(subj), Action: &authzenv1.Action{Name: rel}, Resource: &authzenv1.ResourceFilter{Type: t}, Context: rctx})
 						if err != nil {
 							return err
@@ -260,6 +264,9 @@ func oneCase(c *vk.Ctx, i int, r *rand.Rand, p *sem.Prepared, srv *drive.Srv) {
 
 func compareSets(c *vk.Ctx, p *sem.Prepared, rc *ref.Case, unevaluable bool, api, a, b, x string, got []string, err error, native drive.ListOutcome) {
 	c.Count(strings.ToLower(api)+"_compared", 1)
+	if errors.Is(err, drive.ErrHung) {
+		return
+	}
 	if drive.CodeOf(err) == "PANIC" {
 		c.Violation("", "panic|"+api, api+" panicked: "+err.Error(), nil)
 		return
@@ -322,4 +329,15 @@ func wit(p *sem.Prepared, rq sem.Request, want, got string) map[string]any {
 	w := sem.Witness(p, "memory,authzen", "", rq, nil, want, got)
 	sem.AddWire(w, p, nil, rq.Ctx)
 	return w
+}
+
+// guardWatched is drive.Guard under the same request watchdog the drive's list calls use: an abandoned
+// call is reported as drive.ErrHung (inconclusive; termination is C20/C21's subject).
+func guardWatched(c *vk.Ctx, api string, f func() error) error {
+	var err error
+	if !drive.Watch(drive.HangAfter, func() { err = drive.Guard(f) }) {
+		c.Inconclusive(api + " abandoned by the watchdog after " + drive.HangAfter.String())
+		return drive.ErrHung
+	}
+	return err
 }
